@@ -111,7 +111,7 @@ class Ctx:
         self.replaying = False
         self.max_samples = 10
         budget = os.environ.get('VERIF_BUDGET_S')
-        self.budget_s = float(budget) if budget else (75.0 if tier == 'quick' else 1500.0)
+        self.budget_s = float(budget) if budget else (300.0 if tier == 'quick' else 3000.0)
 
     # -- sizing ------------------------------------------------------------
     @property
